@@ -52,23 +52,29 @@ def gen_system(rs, ctx, sid, nmax, kmax_exp, flag_present, region=False):
     Pop, Pd = L.make_precond(rs, pk, A, cplx)
     nc = int(rs.choice([1, 1, 2, 3]))
     B = rs.normal(size=(n, nc)) + (1j * rs.normal(size=(n, nc)) if cplx else 0)
-    x0kind = str(rs.choice(["none", "none", "zeros", "random"]))
+    x0kind = str(rs.choice(["none", "none", "zeros", "random", "warm"]))
     if region:
-        x0kind = "random"
+        x0kind = str(rs.choice(["random", "warm"]))
     spread = "unit"
-    if x0kind == "random" and flag_present and not region:
+    if x0kind in ("random", "warm") and flag_present and not region:
         B = B / np.linalg.norm(B, axis=0, keepdims=True)        # the defect's region is x0 != 0 with ||b|| != 1
     else:
-        spread = "1e+-6"
-        B = B * 10.0 ** rs.uniform(-6, 6, size=(1, nc))
-        if nc > 1 and rs.random() < 0.3 and x0kind != "random":
+        # column norms spread over 12 orders of magnitude, the whole batch placed anywhere between 1e-14 and 1e8 in
+        # absolute terms (the code normalises every column: only an absolute threshold could notice)
+        spread = "12 orders, absolute 1e-14..1e8"
+        B = B * 10.0 ** (rs.uniform(-6, 6, size=(1, nc)) + rs.uniform(-8, 2))
+        if nc > 1 and rs.random() < 0.3 and x0kind not in ("random", "warm"):
             B[:, int(rs.integers(0, nc))] = 0
             spread = "zero column"
         elif nc == 1 and rs.random() < 0.06:
             B[:, 0] = 0
             spread = "zero column"
-    X0 = None if x0kind == "none" else (np.zeros_like(B) if x0kind == "zeros" else
-                                        (rs.normal(size=(n, nc)) + (1j * rs.normal(size=(n, nc)) if cplx else 0)).astype(B.dtype))
+    rnd = (rs.normal(size=(n, nc)) + (1j * rs.normal(size=(n, nc)) if cplx else 0)).astype(B.dtype)
+    if x0kind == "warm":        # a warm start accurate to 1e-10 .. 1e-4 relative
+        Xs = np.linalg.solve(A, B)
+        X0 = (Xs + float(rs.choice([1e-10, 1e-8, 1e-6, 1e-4])) * np.linalg.norm(Xs, axis=0, keepdims=True) / np.sqrt(n) * rnd).astype(B.dtype)
+    else:
+        X0 = None if x0kind == "none" else (np.zeros_like(B) if x0kind == "zeros" else rnd)
     return dict(A=A, Pop=Pop, Pd=Pd, B=B, X0=X0, cplx=cplx, sys_id=sid, kappa=kappa, kind=kind, pk=pk, x0kind=x0kind,
                 spread=spread, n=n, nc=nc, vector_api=bool(nc == 1 and rs.random() < 0.5))
 
@@ -175,9 +181,9 @@ def run(ctx):
         pk = str(rs.choice(["none", "jacobi", "spd"]))
         Pop, Pd = L.make_precond(rs, pk, A, cplx)
         nc = int(rs.choice([1, 1, 2, 4]))
-        B = (rs.normal(size=(n, nc)) + (1j * rs.normal(size=(n, nc)) if cplx else 0)) * 10.0 ** rs.uniform(-6, 6, size=(1, nc))
+        B = (rs.normal(size=(n, nc)) + (1j * rs.normal(size=(n, nc)) if cplx else 0)) * 10.0 ** (rs.uniform(-6, 6, size=(1, nc)) + rs.uniform(-8, 2))
         c = dict(A=A, Pop=Pop, Pd=Pd, B=B, X0=None, cplx=cplx, sys_id=sid, kappa=kappa, kind=kind, pk=pk, x0kind="none",
-                 spread="1e+-6", n=n, nc=nc, vector_api=bool(nc == 1), tol=float(10 ** rs.uniform(-12, -1)),
+                 spread="12 orders, absolute 1e-14..1e8", n=n, nc=nc, vector_api=bool(nc == 1), tol=float(10 ** rs.uniform(-12, -1)),
                  max_iters=int(rs.integers(0, 2 * n + 1)), stream="large")
         o = L.run_impl(c)
         st = L.stability(c, x0_unscaled=flag) if n <= 80 else dict(same_steps=False, dev_x=np.inf, sens_A=np.inf)
@@ -191,7 +197,7 @@ def run(ctx):
             mism.append(dict(oracle_fail=True, case=describe(c, o), failed_clauses=bad, model_disagrees=False))
     # ---- homogeneity in b (x0 = 0) and the inv(A, CG(...)) @ b entry point
     homog, invpath = 0, 0
-    base = [c for c in cases if c["stream"] == "iterates" and c["x0kind"] != "random"]
+    base = [c for c in cases if c["stream"] == "iterates" and c["x0kind"] not in ("random", "warm")]
     for c in base[:ctx.budget(150, 1000)]:
         o1 = L.run_impl(c)
         if not o1.get("ok"):
@@ -232,7 +238,7 @@ def run(ctx):
     return dict(
         evaluations=len(cases) + homog + invpath, distinct_nontrivial=len(nontriv),
         rule="Hermitian positive-definite systems Q diag(lambda) Q^H (real/complex, 5 spectrum shapes, kappa 1..1e3 for the in-Coq comparison and 1..1e6 for "
-             "the contract oracle, n 1..%d in Coq, 30..%d oracle-only), 1-3 columns with norms spread over 12 orders and zero columns, x0 none/zero/random, "
+             "the contract oracle, n 1..%d in Coq, 30..%d oracle-only), 1-3 columns with norms spread over 12 orders (absolute 1e-14..1e8) and zero columns, x0 none/zero/random/warm start, "
              "5 preconditioner kinds, tol 1e-12..1e-1, max_iters 0..2n; non-trivial = n>=2 and at least one step; distinct by (system, tol, max_iters)" % (nmax, ctx.budget(120, 200)),
         samples=samples, mismatches=mism, findings=fnd,
         extra=dict(compared_in_coq=len(items), near_tie=len(nearset) + margin_ties, skipped_unstable=len(cases) - large - len(items) - margin_ties,
